@@ -491,4 +491,17 @@ func init() {
 		Variant{Name: "benign: addLocalShard logs the key under the lock", Property: "C08", File: shm, Benign: true,
 			Old: "\tkey := ClusterShardIDtoShortString(shard)\n\tnow := time.Now()\n\tsm.localShards[key] = ShardInfo{ID: shard, Created: now}\n", New: "\tkey := ClusterShardIDtoShortString(shard)\n\tnow := time.Now()\n\tsm.logger.Debug(\"registering shard \" + key)\n\tsm.localShards[key] = ShardInfo{ID: shard, Created: now}\n"},
 	)
+	// ---- F11 / F12 and the rules that found them
+	addVariants(
+		Variant{Name: "intra-proxy receiver records the watermark of task batches = F11", Property: "C01", File: ipr,
+			Old: "\t\t\tif len(msgs.Messages.ReplicationTasks) == 0 {\n\t\t\t\tr.lastWatermarkMu.Lock()", New: "\t\t\tif len(msgs.Messages.ReplicationTasks) >= 0 {\n\t\t\t\tr.lastWatermarkMu.Lock()", Expect: "O1.6"},
+		Variant{Name: "same edit seen by C04 = F11", Property: "C04", File: ipr,
+			Old: "\t\t\tif len(msgs.Messages.ReplicationTasks) == 0 {\n\t\t\t\tr.lastWatermarkMu.Lock()", New: "\t\t\tif len(msgs.Messages.ReplicationTasks) >= 0 {\n\t\t\t\tr.lastWatermarkMu.Lock()", Expect: "O4.5"},
+		Variant{Name: "intra-proxy retry loop sleeps without looking at the latch = F12", Property: "C08", File: ipr,
+			Old: "\t\t\t\t\tselect {\n\t\t\t\t\tcase <-shutdown.Channel():\n\t\t\t\t\t\treturn nil\n\t\t\t\t\tcase <-time.After(backoff):\n\t\t\t\t\t}\n", New: "\t\t\t\t\ttime.Sleep(backoff)\n", Expect: "O8.7"},
+		Variant{Name: "benign: intra-proxy retry loop checks the latch at the top instead", Property: "C08", File: ipr, Benign: true,
+			Old: "\t\t\t\t\tselect {\n\t\t\t\t\tcase <-shutdown.Channel():\n\t\t\t\t\t\treturn nil\n\t\t\t\t\tcase <-time.After(backoff):\n\t\t\t\t\t}\n", New: "\t\t\t\t\tif shutdown.IsShutdown() {\n\t\t\t\t\t\treturn nil\n\t\t\t\t\t}\n\t\t\t\t\ttime.Sleep(backoff)\n"},
+		Variant{Name: "benign: replay watermark recorded through a helper-free early continue", Property: "C01", File: pst, Benign: true,
+			Old: "\t\t\t\tr.lastWatermarkMu.Lock()\n\t\t\t\tr.lastWatermark = &replicationv1.WorkflowReplicationMessages{\n\t\t\t\t\tExclusiveHighWatermark: attr.Messages.ExclusiveHighWatermark,\n\t\t\t\t\tPriority:               attr.Messages.Priority,\n\t\t\t\t}\n\t\t\t\tr.lastWatermarkMu.Unlock()\n", New: "\t\t\t\twm := &replicationv1.WorkflowReplicationMessages{\n\t\t\t\t\tExclusiveHighWatermark: attr.Messages.ExclusiveHighWatermark,\n\t\t\t\t\tPriority:               attr.Messages.Priority,\n\t\t\t\t}\n\t\t\t\tr.lastWatermarkMu.Lock()\n\t\t\t\tr.lastWatermark = wm\n\t\t\t\tr.lastWatermarkMu.Unlock()\n"},
+	)
 }
